@@ -25,6 +25,10 @@ namespace MtxVerif.C17
 structure U where
   fmt : Nat
   tag : Nat
+  /-- format 3 (MPEG-4 Video) only: the remuxed frame (C22) — it depends on the configuration the format
+  had when the unit was written, so the event carries it; `[]` for the other formats, whose delivered
+  payload is a function of `(fmt, tag)` -/
+  data : Bytes := []
 deriving Repr, DecidableEq, BEq
 
 structure Rd where
@@ -45,7 +49,7 @@ deriving Repr
 
 inductive Ev where
   | add (r : Nat) (subs : List Nat)
-  | write (f : Nat) (tag : Nat)
+  | write (f : Nat) (tag : Nat) (data : Bytes)
   | done (r : Nat)
   | fail (r : Nat)
   | remove (r : Nat)
@@ -97,7 +101,7 @@ def step (s : St) : Ev → St
   | .add id subs =>
     if s.rds.any (·.id == id) then s
     else { s with rds := s.rds ++ [{ id := id, subs := subs, cap := s.cap }] }
-  | .write f tag => { s with rds := s.rds.map (·.push ⟨f, tag⟩) }
+  | .write f tag data => { s with rds := s.rds.map (·.push ⟨f, tag, data⟩) }
   | .done id => { s with rds := onReader id Rd.done s.rds }
   | .fail id => { s with rds := onReader id Rd.fail s.rds }
   | .remove id => { s with rds := onReader id Rd.remove s.rds }
@@ -115,12 +119,24 @@ def tagBytes (f tag : Nat) : Bytes := [UInt8.ofNat f, UInt8.ofNat (tag / 256), U
 
 def writtenAU (tag : Nat) : C22.AU := [[0x09, 0xF0], 0x41 :: tagBytes 0 tag]
 
+/-- format 3 = MPEG-4 Video; the frame written for `tag`: `tag % 4 = 0` key frame with an in-band configuration
+(configuration byte changes every 4 tags), `1, 2` key frame starting with a GOV (no configuration: the remuxer
+must put the current one in front), `3` plain VOP.  GOV frames + configuration are not longer than a frame
+with in-band configuration (so that a remuxer building frames inside an old buffer would fit). -/
+def writtenM4V (tag : Nat) : Bytes :=
+  let t := tagBytes 3 tag
+  match tag % 4 with
+  | 0 => [0, 0, 1, 0xB0, UInt8.ofNat ((tag / 4) % 3 + 1), 0, 0, 1, 0xB3] ++ t ++ [0, 0, 1, 0xB6, 7]
+  | 3 => [0, 0, 1, 0xB6] ++ t
+  | _ => [0, 0, 1, 0xB3] ++ t ++ [0, 0, 1, 0xB6, 7]
+
 /-- what a reader must see for unit `(f, tag)`: "unmodified after remuxing" -/
 def expectedPayload (u : U) : String :=
   if u.fmt = 0 then
     match (C22.step264 ⟨none, none⟩ (writtenAU u.tag)).2 with
     | .ok au => ".".intercalate (au.map Hex.encode)
     | .panic => "panic"
+  else if u.fmt = 3 then Hex.encode u.data
   else Hex.encode (tagBytes u.fmt u.tag)
 
 /-! ### executable spec, evaluated on the implementation's answers
@@ -138,6 +154,8 @@ structure SRd where
   nDelivered : Nat := 0
   lastPos : Nat := 0         -- position in `written` after the last delivered unit
   discarded : Nat := 0
+  /-- payloads as the implementation reported them when the callbacks were entered, in order -/
+  got : List String := []
 deriving Repr
 
 structure Spec where
@@ -169,7 +187,7 @@ def SRd.deliver (r : SRd) (d : Dlv) : Except String SRd :=
   else if !r.subs.contains d.f then .error s!"reader {r.id} got a unit of format {d.f} it did not subscribe to"
   else match findFrom r.written r.lastPos d.f d.payload with
     | none => .error s!"reader {r.id}: delivered unit was not written to format {d.f} after the previously delivered one (reordered, duplicated, modified or foreign)"
-    | some p => .ok { r with infl := true, nDelivered := r.nDelivered + 1, lastPos := p }
+    | some p => .ok { r with infl := true, nDelivered := r.nDelivered + 1, lastPos := p, got := r.got ++ [d.payload] }
 
 def applyDeliveries (rds : List SRd) : List Dlv → Except String (List SRd)
   | [] => .ok rds
@@ -209,18 +227,23 @@ def Spec.step (s : Spec) (ev : Ev) (ds : List Dlv) (cs : List (Nat × Nat)) : Ex
   let rds1 : List SRd :=
     match ev with
     | .add id subs => if s.rds.any (·.id == id) then s.rds else s.rds ++ [{ id := id, subs := subs }]
-    | .write f tag => s.rds.map fun r =>
-        if r.attached && r.subs.contains f then { r with written := r.written ++ [⟨f, tag⟩] } else r
+    | .write f tag data => s.rds.map fun r =>
+        if r.attached && r.subs.contains f then { r with written := r.written ++ [⟨f, tag, data⟩] } else r
     | .done id => s.rds.map fun r => if r.id == id then { r with infl := false } else r
     | .fail id => s.rds.map fun r => if r.id == id && r.infl then { r with infl := false, dead := true } else r
     | .remove id => s.rds.map fun r => if r.id == id then { r with attached := false, infl := false } else r
   -- 2. deliveries reported for this op
   let rds2 ← applyDeliveries rds1 ds
   -- 3. counters
-  let wf := match ev with | .write f _ => some f | _ => none
+  let wf := match ev with | .write f _ _ => some f | _ => none
   let rds3 ← checkCounters s.cap wf rds1 rds2 cs
   -- 4. nothing left behind
   checkQuiescent rds3
   pure { s with rds := rds3 }
+
+/-- the retained units, re-read at the end of the history: `reader:payload/payload/…;…` -/
+def fmtRetained (l : List (Nat × List String)) : String :=
+  if l.isEmpty then "k=-" else
+  "k=" ++ ";".intercalate (l.map fun (r, ps) => s!"{r}:{if ps.isEmpty then "-" else "/".intercalate ps}")
 
 end MtxVerif.C17
